@@ -706,7 +706,13 @@ class SimpleTFTPHandler(TFTPBaseHandler):
         Resolves *filename* against :attr:`SimpleTFTPServer.base_path`.
         """
         p = (self.server.base_path / filename).resolve()
-        if self.server.base_path in p.parents:
+        # A non-strict resolve() gives up at a symlink loop and returns the
+        # remainder of the path unresolved; only accept results that are their
+        # own strict resolution (i.e. contain no symlinks at all)
+        if (
+            self.server.base_path in p.parents and
+            p == p.resolve(strict=True)
+        ):
             return p
         else:
             raise PermissionError(lang._(
